@@ -495,6 +495,47 @@ type fatCase struct {
 	Depth   int          `json:"depth,omitempty"`
 	From     int          `json:"from,omitempty"`
 	To       int          `json:"to,omitempty"`
+	// HighClusters: after Create almost all clusters whose byte offset in the volume lies below this value are
+	// marked bad in both FAT copies (a state a real medium can be in) and the volume is re-opened, so that
+	// the history allocates, reads and writes clusters on both sides of that offset (e.g. 4 GiB)
+	HighClusters int64 `json:"high_clusters,omitempty"`
+}
+
+// fatMarkBadBelow marks clusters bad (FAT32 only); returns how many were marked.
+func fatMarkBadBelow(st *monstore.Store, v FatVol, limit int64) int {
+	b := st.Peek(v.Start, 512)
+	le := func(o, n int) int64 {
+		x := int64(0)
+		for i := n - 1; i >= 0; i-- {
+			x = x<<8 | int64(b[o+i])
+		}
+		return x
+	}
+	bps, spc, reserved, nfats, fatsz := le(11, 2), le(13, 1), le(14, 2), le(16, 1), le(36, 4)
+	total := le(32, 4)
+	if bps == 0 || spc == 0 || fatsz == 0 {
+		return 0
+	}
+	dataStart := (reserved + nfats*fatsz) * bps
+	cs := spc * bps
+	clusters := (total*bps - dataStart) / cs
+	// first cluster whose first byte lies at or beyond the limit
+	line := (limit-dataStart+cs-1)/cs + 2
+	if line > clusters+2 {
+		return 0
+	}
+	from, to := int64(3+8), line-4 // keep a few free ones low and just below the line
+	if to <= from {
+		return 0
+	}
+	mark := make([]byte, (to-from)*4)
+	for i := 0; i < len(mark); i += 4 {
+		mark[i], mark[i+1], mark[i+2], mark[i+3] = 0xf7, 0xff, 0xff, 0x0f
+	}
+	for f := int64(0); f < nfats; f++ {
+		st.Poke(mark, v.Start+(reserved+f*fatsz)*bps+from*4)
+	}
+	return int(to - from)
 }
 
 func has(list []string, s string) bool {
@@ -635,6 +676,20 @@ func runFatCase(prop string, c core.Case, env *core.Env) core.Result {
 		return res
 	}
 	res.Count("create.accepted."+v.Type, 1)
+	if fc.HighClusters > 0 && v.Type == "fat32" {
+		n := fatMarkBadBelow(st, v, fc.HighClusters)
+		if n == 0 {
+			res.Inconclusive = "high-clusters: the volume does not reach the requested offset"
+			return res
+		}
+		var e error
+		if pi := core.Guard(func() { fs, e = fatRead(st, v, false) }); pi != nil || e != nil {
+			res.Inconclusive = fmt.Sprintf("high-clusters: re-opening the volume with %d bad clusters failed: %v", n, e)
+			return res
+		}
+		res.Count("high_clusters.marked_bad", int64(n))
+		res.Mark(fmt.Sprintf("clusters in use on both sides of volume offset %d GiB", fc.HighClusters>>30))
+	}
 	cs := fatClusterSize(fs)
 	drv := &fsdrive.Driver{
 		Cfg:   fsdrive.Cfg{Prefix: prop + "/" + v.Type, FoldCase: true, NoCompare: prop == "C08" || prop == "C03"},
